@@ -1613,19 +1613,19 @@ Proof.
       * exact I4fam.
 Qed.
 
-Theorem Inv4_init progs :
-  Forall (Forall lin_frag) progs -> Inv4 (init_config 1 progs) (fun _ _ => False) ∅.
+Theorem Inv4_init z progs :
+  Forall (Forall lin_frag) progs -> Inv4 (init_config_z [z] progs) (fun _ _ => False) ∅.
 Proof.
   intros Hfr.
-  assert (Hthreads : forall t th, nth_error (c_threads (init_config 1 progs)) t = Some th ->
+  assert (Hthreads : forall t th, nth_error (c_threads (init_config_z [z] progs)) t = Some th ->
             exists p, Forall lin_frag p /\ th = next_call (Thread p [] [] false)).
   { intros t th. cbn. rewrite nth_error_map. destruct (nth_error progs t) as [p|] eqn:E; [|discriminate]. cbn.
     intros [= <-]. exists p. split; [|reflexivity]. rewrite Forall_forall in Hfr. apply Hfr. eapply nth_error_In, E. }
-  assert (Hnone : forall t, info (init_config 1 progs) t = None).
-  { intros t. unfold info. destruct (nth_error (c_threads (init_config 1 progs)) t) as [th|] eqn:E; [|reflexivity].
+  assert (Hnone : forall t, info (init_config_z [z] progs) t = None).
+  { intros t. unfold info. destruct (nth_error (c_threads (init_config_z [z] progs)) t) as [th|] eqn:E; [|reflexivity].
     destruct (Hthreads t th E) as (p & _ & ->). rewrite frame_of_next_call. reflexivity. }
   constructor.
-  - exists empty_inst. reflexivity.
+  - exists (empty_inst_z z). reflexivity.
   - intros k. rewrite lookup_empty. reflexivity.
   - intros t th Hth. destruct (Hthreads t th Hth) as (p & Hp & ->). unfold next_call. cbn. destruct p as [|c0 p]; cbn.
     + split; [constructor|]. split; [constructor|lia].
@@ -1648,12 +1648,12 @@ Qed.
 (* Every history of Load / Store / LoadOrStore / LoadAndDelete / Delete calls
    on one sync2.Map, by any number of goroutines, under every interleaving of
    the atomic steps, is linearizable to an ordinary map. *)
-Theorem map_linearizable progs sched :
+Theorem map_linearizable z progs sched :
   Forall (Forall lin_frag) progs ->
-  linearizable map_spec ∅ (map_hist (run_schedule (init_config 1 progs) sched)).
+  linearizable map_spec ∅ (map_hist (run_schedule (init_config_z [z] progs) sched)).
 Proof.
   intros Hfr.
-  destruct (Inv1234_run (init_config 1 progs) sched _ _ (Inv_init 1 progs) (Inv2_init 1 progs) (Inv4_init progs Hfr))
+  destruct (Inv1234_run (init_config_z [z] progs) sched _ _ (Inv_init_z [z] progs) (Inv2_init_z [z] progs) (Inv4_init z progs Hfr))
     as (seen & a & HI4).
   destruct (i4_fam _ _ _ HI4 (fun _ => None)) as (P & Hp & _); [intros t x; discriminate|].
   exists a, P. exact Hp.
@@ -1661,16 +1661,16 @@ Qed.
 
 (* ... and the map the linearization ends in IS the contents of the Map; when
    every goroutine has finished, every call of the history has been linearized. *)
-Theorem map_linearizable_contents progs sched :
+Theorem map_linearizable_contents z progs sched :
   Forall (Forall lin_frag) progs ->
-  let c := run_schedule (init_config 1 progs) sched in
+  let c := run_schedule (init_config_z [z] progs) sched in
   exists (a : gmap Z Z) (P : lpend),
     poss map_spec ∅ (rev (map_hist c)) a P /\
     (forall k, a !! k = abs_lookup (st0 c) k) /\
     (finished c = true -> forall t, P t = None).
 Proof.
   intros Hfr c.
-  destruct (Inv1234_run (init_config 1 progs) sched _ _ (Inv_init 1 progs) (Inv2_init 1 progs) (Inv4_init progs Hfr))
+  destruct (Inv1234_run (init_config_z [z] progs) sched _ _ (Inv_init_z [z] progs) (Inv2_init_z [z] progs) (Inv4_init z progs Hfr))
     as (seen & a & HI4). fold c in HI4.
   destruct (i4_fam _ _ _ HI4 (fun _ => None)) as (P & Hp & HP); [intros t x; discriminate|].
   exists a, P. split; [exact Hp|]. split; [apply (i4_abs _ _ _ HI4)|].
